@@ -82,6 +82,9 @@ func body(r *vf.Run) {
 		for i := 0; i < n; i++ {
 			p, v, st := vf.Recover(func() {
 				in := makeInput(r, pool, i)
+				if os.Getenv("C04_LIST") != "" {
+					fmt.Printf("%d\t%s\t%d\t%s\n", i, in.Gen, len(in.Blob), oneLine(in.Desc, 200))
+				}
 				total += int64(len(in.Blob))
 				if in.Build != nil {
 					total += int64(len(in.Build.In))
